@@ -28,11 +28,58 @@ class Vec:
         return hash(("Vec", self.vid, self.lo, self.hi))
 
 
+class Undecided(Exception):
+    """a lazily mapped item could not be evaluated to a single outcome"""
+
+
+_CUR = [None]      # the interpreter on whose behalf the collection model is currently answering
+
+
+class LazyItems:
+    """the items of `iter.map(f)`: f is applied when an item is taken - in iteration order, one item at a time, so a consumer
+    that stops early (collect into a Result, find, any, all, position, a `for` loop with `break` / `?`) never runs f on the
+    rest, exactly as the real lazy adapter.  Nothing is cached: every element access applies the closures once."""
+
+    def __init__(self, base, fns, owner=None):
+        self.base = tuple(base)
+        self.fns = tuple(fns)
+        self.owner = owner or _CUR[0]     # the interpreter that built the adapter (used when a rule's own oracle takes the items)
+
+    def _get(self, i):
+        x = self.base[i]
+        for fv in self.fns:
+            x = _call1(_CUR[0] or self.owner, fv, [x])
+            if x is None:
+                raise Undecided()
+        return x
+
+    def __len__(self):
+        return len(self.base)
+
+    def __bool__(self):
+        return bool(self.base)
+
+    def __iter__(self):
+        for i in range(len(self.base)):
+            yield self._get(i)
+
+    def __getitem__(self, k):
+        if isinstance(k, slice):
+            return LazyItems(self.base[k], self.fns, self.owner)
+        return self._get(k)
+
+    def __add__(self, other):
+        return tuple(self) + tuple(other)
+
+    def __radd__(self, other):
+        return tuple(other) + tuple(self)
+
+
 class It:
     """iterator value: the remaining items"""
 
     def __init__(self, items, adapters=(), extra=None):
-        self.items = tuple(items)
+        self.items = items if isinstance(items, LazyItems) else tuple(items)
         self.adapters = tuple(adapters)
         self.extra = extra or {}     # e.g. the remainder of chunks_exact
 
@@ -190,7 +237,14 @@ def iter_items(interp, env, v):
     v0 = v
     v = load(interp, env, v) if not isinstance(v, (Vec, It)) else v
     if isinstance(v, It):
-        return list(v.items)
+        prev = _CUR[0]
+        _CUR[0] = interp
+        try:
+            return list(v.items)
+        except Undecided:
+            return None
+        finally:
+            _CUR[0] = prev
     if isinstance(v, Vec):
         by_value = isinstance(v0, Vec) and not v0.borrowed
         items = view_get(interp, v)
@@ -280,6 +334,17 @@ def install(interp):
 
 
 def coll_oracle(interp, env, f, args, t, bb, path):
+    prev = _CUR[0]
+    _CUR[0] = interp
+    try:
+        return _coll_oracle(interp, env, f, args, t, bb, path)
+    except Undecided:
+        return TOP
+    finally:
+        _CUR[0] = prev
+
+
+def _coll_oracle(interp, env, f, args, t, bb, path):
     k = f.get("resolved", {}).get("key") or f.get("key", "")
     dk = f.get("key", "")
     nm = f.get("name")
@@ -786,13 +851,9 @@ def coll_oracle(interp, env, f, args, t, bb, path):
             n = args[1]
             return It(it.items[n:] if nm == "skip" else it.items[:n] if nm == "take" else it.items[::max(1, n)])
         if nm == "map" and len(args) == 2:
-            out = []
-            for x in it.items:
-                r = _call1(interp, args[1], [x])
-                if r is None:
-                    return TOP
-                out.append(r)
-            return It(out)
+            if isinstance(it.items, LazyItems):
+                return It(LazyItems(it.items.base, it.items.fns + (args[1],)), extra=it.extra)
+            return It(LazyItems(it.items, (args[1],)), extra=it.extra)
         if nm in ("flat_map", "flatten"):
             out = []
             for x in it.items:
@@ -892,6 +953,16 @@ def coll_oracle(interp, env, f, args, t, bb, path):
             ret = f.get("ret", "")
             if ret.startswith("alloc::vec::Vec<"):
                 return new_vec(interp, [x for x in it.items])
+            if ret.startswith("core::result::Result<(),") or ret.startswith("core::option::Option<()>"):
+                good = "Ok" if ret.startswith("core::result") else "Some"
+                for x in it.items:          # stops at the first failure: later items are never produced
+                    x = load(interp, env, x)
+                    if not isinstance(x, Agg) or x.variant is None:
+                        return TOP
+                    if x.variant != good:
+                        return x
+                from absint import ok as _ok
+                return _ok(unit) if good == "Ok" else some(unit)
             if ret.startswith("core::result::Result<alloc::vec::Vec<") or ret.startswith("core::option::Option<alloc::vec::Vec<"):
                 good = "Ok" if ret.startswith("core::result") else "Some"
                 inner = []
